@@ -138,6 +138,10 @@ func (e *Engine) chainResult() *FuncResult {
 		i := need(l, "RenameNumericEnumValues", "enum-members-not-numeric")
 		after(l, "RenameNumericEnumValues", i, createsEnum, "enums")
 	}
+	// recursion: DisjunctionToType turns the branches of a union into fields of a generated struct; a
+	// branch can hold a union itself, so it has to go through visitor.VisitType before it becomes a field
+	ctx.addOblig("recursion", "compiler.(*DisjunctionToType).processDisjunction:branches-are-visited-before-they-become-fields",
+		BoolLit(e.fieldsComeFromVisitType("compiler.(*DisjunctionToType).processDisjunction")), "internal/ast/compiler/disjunctions.go")
 	var ls []string
 	for _, l := range langs {
 		ls = append(ls, l+": "+strings.Join(chains[l], " > "))
@@ -147,4 +151,70 @@ func (e *Engine) chainResult() *FuncResult {
 	_ = mayCreateUnion
 	res.Obligs = ctx.obligs
 	return res
+}
+
+
+// fieldsComeFromVisitType: every ast.NewStructField call of the function receives, as the field type, a
+// value that was produced by (*Visitor).VisitType (possibly copied through a local and updated field-wise).
+func (e *Engine) fieldsComeFromVisitType(key string) bool {
+	fn := e.fnByKey[key]
+	if fn == nil {
+		return false
+	}
+	var fromVisit func(v ssa.Value, depth int) bool
+	fromVisit = func(v ssa.Value, depth int) bool {
+		if depth > 6 {
+			return false
+		}
+		switch x := v.(type) {
+		case *ssa.Extract:
+			return fromVisit(x.Tuple, depth+1)
+		case *ssa.Call:
+			if sc := x.Call.StaticCallee(); sc != nil {
+				return funcKey(sc) == "compiler.(*Visitor).VisitType"
+			}
+			return false
+		case *ssa.UnOp: // load from a local: every whole-value store into it must come from VisitType
+			al, ok := x.X.(*ssa.Alloc)
+			if !ok {
+				return false
+			}
+			stores := 0
+			for _, r := range *al.Referrers() {
+				if st, isStore := r.(*ssa.Store); isStore && st.Addr == ssa.Value(al) {
+					stores++
+					if !fromVisit(st.Val, depth+1) {
+						return false
+					}
+				}
+			}
+			return stores > 0
+		case *ssa.Phi:
+			for _, ed := range x.Edges {
+				if !fromVisit(ed, depth+1) {
+					return false
+				}
+			}
+			return true
+		}
+		return false
+	}
+	calls := 0
+	for _, b := range fn.Blocks {
+		for _, in := range b.Instrs {
+			c, ok := in.(*ssa.Call)
+			if !ok {
+				continue
+			}
+			sc := c.Call.StaticCallee()
+			if sc == nil || funcKey(sc) != "ast.NewStructField" || len(c.Call.Args) < 2 {
+				continue
+			}
+			calls++
+			if !fromVisit(c.Call.Args[1], 0) {
+				return false
+			}
+		}
+	}
+	return calls > 0
 }
